@@ -16,6 +16,9 @@ import json, os, re, subprocess, sys, time
 
 VERIF = os.path.dirname(os.path.dirname(os.path.abspath(__file__)))
 REPO = "/repo"
+# SEEDED_DIR=harmless: the same runner over /verif/harmless/<name>/ (behaviour-preserving refactorings: every check is
+# expected to stay quiet; meta.json lists all 20 properties in "also_check")
+SDIR = os.environ.get("SEEDED_DIR", "seeded")
 
 
 def sh(cmd, cwd=None, timeout=7200):
@@ -30,7 +33,7 @@ def repo_clean():
 
 def run_isolated(names, jobs):
     import shutil, threading, queue
-    respath = os.environ.get("SEEDED_RESULTS", os.path.join(VERIF, "seeded", "results.json"))
+    respath = os.environ.get("SEEDED_RESULTS", os.path.join(VERIF, SDIR, "results.json"))
     results = json.load(open(respath)) if os.path.exists(respath) else {}
     q = queue.Queue()
     for n in names:
@@ -52,7 +55,7 @@ def run_isolated(names, jobs):
                     name = q.get_nowait()
                 except queue.Empty:
                     break
-                d = os.path.join(VERIF, "seeded", name)
+                d = os.path.join(VERIF, SDIR, name)
                 meta = json.load(open(os.path.join(d, "meta.json")))
                 props = [meta["property"]] + meta.get("also_check", [])
                 sh(["git", "-C", wt, "checkout", "--", "."])
@@ -98,7 +101,29 @@ def run_isolated(names, jobs):
     return results
 
 
+def write_md_harmless(results):
+    lines = ["# Behaviour-preserving refactorings: do the checks stay quiet?", "",
+             "Generated by `SEEDED_DIR=harmless tools/run_seeded.py` (quick tier, seed 1, all 20 checks per patch).", "",
+             "| refactoring | what was changed | checks quiet | checks that reported |", "|---|---|---|---|"]
+    for name in sorted(results):
+        r = results[name]
+        if "checks" not in r:
+            continue
+        loud = []
+        for p, c in sorted(r["checks"].items()):
+            if c["violation"] or c["exit"] != 0:
+                rp = c.get("replay") or {}
+                what = "; ".join(rp.get("broken_obligations") or []) or "; ".join(rp.get("model_disagreements") or []) or "; ".join(map(str, rp.get("failing_inputs") or [])) or "exit %s" % c["exit"]
+                loud.append("%s%s: %s" % (p, " (no-failing-input-found)" if c["no_failing_input_found"] else "", what[:160]))
+        quiet = sum(1 for c in r["checks"].values() if not c["violation"] and c["exit"] == 0)
+        lines.append("| %s | %s | %d / %d | %s |" % (name, r["summary"].replace("|", "\\|")[:260], quiet, len(r["checks"]), "<br>".join(loud).replace("|", "\\|") or "none"))
+    open(os.path.join(VERIF, SDIR, "RESULTS.md"), "w").write("\n".join(lines) + "\n")
+    print("written %s/RESULTS.md" % SDIR)
+
+
 def write_md(results):
+    if SDIR != "seeded":
+        return write_md_harmless(results)
     lines = ["# Seeded defects: which checks catch which changes", "",
              "Generated by `tools/run_seeded.py` (quick tier, seed 1). `input` = a concrete failing input / history was reported as the replay;",
              "`obligation` = only a proof obligation or the correspondence broke (`no-failing-input-found`).", "",
@@ -138,18 +163,18 @@ def write_md(results):
 def main():
     if len(sys.argv) > 2 and sys.argv[1] == "--jobs":
         jobs = int(sys.argv[2])
-        names = sys.argv[3:] or sorted(n for n in os.listdir(os.path.join(VERIF, "seeded")) if os.path.isfile(os.path.join(VERIF, "seeded", n, "patch.diff")))
+        names = sys.argv[3:] or sorted(n for n in os.listdir(os.path.join(VERIF, SDIR)) if os.path.isfile(os.path.join(VERIF, SDIR, n, "patch.diff")))
         results = run_isolated(names, jobs)
         write_md(results)
         return
-    names = sys.argv[1:] or sorted(n for n in os.listdir(os.path.join(VERIF, "seeded")) if os.path.isfile(os.path.join(VERIF, "seeded", n, "patch.diff")))
-    respath = os.environ.get("SEEDED_RESULTS", os.path.join(VERIF, "seeded", "results.json"))
+    names = sys.argv[1:] or sorted(n for n in os.listdir(os.path.join(VERIF, SDIR)) if os.path.isfile(os.path.join(VERIF, SDIR, n, "patch.diff")))
+    respath = os.environ.get("SEEDED_RESULTS", os.path.join(VERIF, SDIR, "results.json"))
     results = json.load(open(respath)) if os.path.exists(respath) else {}
     if not repo_clean():
         print("/repo is not clean; refusing to run")
         sys.exit(2)
     for name in names:
-        d = os.path.join(VERIF, "seeded", name)
+        d = os.path.join(VERIF, SDIR, name)
         meta = json.load(open(os.path.join(d, "meta.json")))
         props = [meta["property"]] + meta.get("also_check", [])
         rc, out = sh(["git", "-C", REPO, "apply", os.path.join(d, "patch.diff")])
